@@ -2,3 +2,5 @@ import PyemvGen.CvnGen
 import PyemvGen.CvnRefines
 import PyemvGen.ModGen
 import PyemvGen.ModRefines
+import PyemvGen.TlvGen
+import PyemvGen.TlvRefines
